@@ -105,7 +105,7 @@ SendCall(t, m, res) ==
      ELSE IF SendKind = "sched" /\ opt.failNoPeers /\ pipes = {}
        THEN res = "ErrNoPeers" /\ UNCHANGED <<sendVars, call, accepted>>
      ELSE /\ res = "wait"
-          /\ call' = [call EXCEPT ![t] = [op |-> "send", m |-> m, due |-> SendDue, np |-> FALSE]]
+          /\ call' = [call EXCEPT ![t] = [op |-> "send", m |-> m, due |-> SendDue, np |-> FALSE, rz |-> FALSE]]
           /\ UNCHANGED <<sendVars, accepted>>
   /\ UNCHANGED <<cfgVars, sockVars, recvVars, delivered, handed, arrivedOK>>
 
@@ -115,6 +115,7 @@ SendDone(t, res) ==
   /\ LET m == call[t].m IN
      \/ /\ sclosed /\ SendKind # "routed" /\ res = "ErrClosed" /\ UNCHANGED <<sendVars, accepted>>
      \/ /\ call[t].np /\ res = "ErrNoPeers" /\ UNCHANGED <<sendVars, accepted>>
+     \/ /\ call[t].rz /\ res = "ok" /\ UNCHANGED <<sendVars, accepted>>                     \* a queue was resized: dropped ("resize discards")
      \/ /\ call[t].due = -2 /\ res = "ok" /\ UNCHANGED <<sendVars, accepted>>                  \* best effort: dropped
      \/ /\ call[t].due >= 0 /\ (Timed => now >= call[t].due) /\ res = "ErrSendTimeout" /\ UNCHANGED <<sendVars, accepted>>
      \/ /\ SendKind = "routed" /\ pclosed[m.to]
@@ -284,7 +285,7 @@ SendReady(t) ==
   /\ call[t] # NULL /\ call[t].op = "send"
   /\ LET m == call[t].m IN
      \/ sclosed /\ SendKind # "routed"
-     \/ call[t].np \/ call[t].due = -2
+     \/ call[t].np \/ call[t].rz \/ call[t].due = -2
      \/ call[t].due >= 0 /\ now >= call[t].due
      \/ SendKind = "routed" /\ pclosed[m.to]
      \/ SendKind \in {"shared", "sched"} /\ opt.sq > 0 /\ Len(sendQ) < opt.sq
@@ -294,12 +295,19 @@ RecvReady(t) ==
   /\ call[t] # NULL /\ call[t].op = "recv"
   /\ recvQ # <<>> \/ sclosed \/ (call[t].due >= 0 /\ now >= call[t].due)
 \* The receive queue length is changed while nothing is queued or held by a receiver (the drivers change it only
-\* then; what a resize does to queued messages is not specified here).  Calls that are waiting keep waiting with
-\* the deadline they started with: a deadline is measured from the call, whatever is reconfigured meanwhile.
+\* then; what a resize does to queued messages is not specified here).  Calls that are waiting for a message keep
+\* waiting with the deadline they started with: a deadline is measured from the call, whatever is reconfigured
+\* meanwhile.  In XPAIR, XPAIR1 and XREQ the one "size changed" signal serves both queues and a Send that is waiting for
+\* room takes it as "resize discards": it returns success and its message is dropped (as the code has it; the
+\* statements say nothing about messages under way when a queue length is changed - modelled, not reported).
+ResizeDropsSend == Proto \in {"xpair", "xpair1", "xreq"}
 SetRQ(n) ==
   /\ n >= 0 /\ recvQ = <<>> /\ \A p \in Pipe : rxHold[p] = NULL
   /\ opt' = [opt EXCEPT !.rq = n]
-  /\ UNCHANGED <<now, sockVars, sendVars, recvVars, call, histVars>>
+  /\ call' = IF ResizeDropsSend
+               THEN [t \in Thread |-> IF call[t] # NULL /\ call[t].op = "send" THEN [call[t] EXCEPT !.rz = TRUE] ELSE call[t]]
+               ELSE call
+  /\ UNCHANGED <<now, sockVars, sendVars, recvVars, histVars>>
 
 CanInternal ==
   \/ \E t \in Thread : SendReady(t) \/ RecvReady(t)
